@@ -170,9 +170,14 @@ def run(prog, rep):
             alias_ok = False
             if rvs is not None:
                 rk = guards.key(rvs)
-                for (fk, fop, fv) in facts:
-                    if fop == "=:" and fk == rk and fv == guards.key(c):
+                for _hop in range(4):          # `sent = send (...); result = sent; return result;`
+                    nxt = [fv for (fk, fop, fv) in facts if fop == "=:" and fk == rk]
+                    if guards.key(c) in nxt:
                         alias_ok = True
+                        break
+                    if len(nxt) != 1:
+                        break
+                    rk = nxt[0]
                 if rvs["k"] == "call" and rvs is c:
                     alias_ok = True
             # no narrowing cast on the returned value
